@@ -84,6 +84,8 @@ CaseTags(ev) ==
         bad2 == { <<x, k>> \in bad : k \in DOMAIN P.vals[x] } IN
     IF o \notin {"Ok", "Err"} THEN {"outcome:" \o o}
     ELSE IF a.extra = "must-fail" THEN (IF o = "Err" THEN {} ELSE {"conflicting-count-kinds-accepted"})
+    \* module Numbers: a number that neither a 64-bit integer nor a double can hold is refused, never shown as something else
+    ELSE IF a.extra = "must-refuse" THEN (IF o = "Err" THEN {} ELSE {"unrepresentable-number-accepted"})
     ELSE IF bad # {}
          THEN IF o # "Err" THEN {"must-reject-got-Ok"}
               ELSE (IF \E b \in bad : a.names[b[2]] \in Range(ev.load.errQuoted) THEN {} ELSE {"error-does-not-name-a-key"})
